@@ -3,8 +3,29 @@ import engine_tab as tab
 import engine_tab2 as tab2
 import engine_err as err
 import engine_pur as pur
+import engine_cli as cli
 
 PROPS = {
+    "C19": {
+        "rules": [("CLI-1", cli.cli1), ("CLI-4", cli.cli4), ("TAB-7", cli.tab7)],
+        "explanation": "Decides the wiring and file-format clauses of C19: no call (lib, bin) passes same-typed arguments crosswise to each other's parameters "
+                       "(names of arguments vs parameters); in `asca run` the four components of get_input reach asca::run's parameters of the same role and the "
+                       "value printed / written is the Ok payload of that call joined by LINE_ENDING; writers and readers of .rsca/.alias/.wsca use the same sigils "
+                       "(@, #, @into/@from, trim vs indent, description line separator), and all four JSON paths go through the one serde type AscaJson.",
+        "does_not_decide": "losslessness of .rsca for every group shape (blank-line / description state machine: value-level behaviour of a line-oriented parser), path / extension handling in write_to_file.",
+        "assumptions": ["argument and parameter names are meaningful (crossed-names detector: fires only on a crossing, never on merely different names)"],
+    },
+    "C20": {
+        "rules": [("CLI-2", cli.cli2), ("CLI-3", cli.cli3), ("CLI-5", cli.cli5)],
+        "explanation": "Decides the cycle, filter and stage-order clauses of C20: Parser::parse returns Ok only after top-level loops that check every `%tag` reference "
+                       "for existence and for cycles (detector inserts each visited tag in a set and returns on a repeat), every config slice given to the five "
+                       "functions that follow `from` recursively comes from get_config = Parser::parse, and ASCAConfig literals with a reference are built only in "
+                       "that parser; `~{..}` builds its result by looping over the filter list (order named), `!` is a filter over the file's groups, every name "
+                       "comparison lower-cases both sides; run_sequence runs entry i's rules on trace[i] front to back pushing one result per stage, caches "
+                       "trace.last() per tag; get_all_rules = upstream history then own entries.",
+        "does_not_decide": "equality of staged output with the one-shot run of the concatenated history (needs the render/parse round trip C09 and C10(ii)); effects of re-applying alias files at every stage.",
+        "assumptions": [],
+    },
     "C01": {
         "rules": [("PUR-1", pur.pur1), ("PUR-2", pur.pur2), ("PUR-3", pur.pur3), ("PUR-4", pur.pur4)],
         "explanation": "Decides C01 as an effect property: in safe Rust a function of its arguments can only become nondeterministic through hash-collection "
